@@ -3,6 +3,7 @@ the real crate (dev and release builds), translator validation (MIRSYM run concr
 (a mutated MIR must be caught), evidence and exit code."""
 import random
 import sys
+import re
 import time
 
 from common import *   # noqa
@@ -223,7 +224,7 @@ def replay_cex(rep, pid, unit_name, cex):
 
 def unit_pair(spec1, spec2, k, opts):
     """op1(..) ; op2(..) in one environment, operands drawn from the same symbolic truth tables"""
-    I = load('lib')
+    I = load('lib', dict(loop_bound=opts.get('loop_bound', 8)))
     w = world_for(k)
     env, mem = table_env(I)
     b1 = SPECS[spec1](I, w, k, {})
@@ -243,6 +244,23 @@ def unit_pair(spec1, spec2, k, opts):
         q['expect'] = 'unsat'
         m = q.pop('model', None)
         res['queries'].append(q)
+        if q['result'] == 'sat' and cex is None:
+            # prefer a counterexample whose operands are constant functions (what a caller holds then keeps nothing
+            # but leaves alive: the situation in which table clean-ups go wrong); fall back to the first model
+            simple = []
+            groups = {}
+            for key in (m or {}):
+                mm = re.match(r'^(.*)_(\d+)$', key)
+                if mm and isinstance(m[key], bool):
+                    groups.setdefault(mm.group(1), []).append(key)
+            for gname, keys in groups.items():
+                if len(keys) == (1 << k):
+                    simple += [z3.Bool(keys[0]) == z3.Bool(x) for x in keys[1:]]
+            if simple:
+                q2 = decide('no panic in the second operation (constant operands)', assumptions2 + simple, gand(live, pc2), timeout_s=opts.get('timeout', 250))
+                if q2['result'] == 'sat':
+                    m = q2.get('model') or m
+            cex = dict(obligation='no panic in the second operation', spec=spec2, k=k, case=dict(kind='pair', first=b1['case'](m), second=b2['case'](m)))
         for r2 in rets2:
             negs = []
             if b2.get('expected') is not None:
